@@ -203,7 +203,9 @@ def item_rw(it):
     return rd, wr
 
 
-def item_lines(m, it):
+def item_lines(m, it, disp=None):
+    """disp: variables to print with $display at the end of an always_ff (text only: the reference has no
+    $display; the engines' output is compared with each other)"""
     D = m["decls"]
     lines = []
     if it[0] == "assign":
@@ -226,6 +228,8 @@ def item_lines(m, it):
         else:
             for s in it[2]:
                 lines += stmt_text(m, s, 2)
+        if disp:
+            lines.append('        $display("%s", %s);' % (" ".join("%s=%%h" % D[x][0] for x in disp), ", ".join(D[x][0] for x in disp)))
         lines.append("    }")
     return lines
 
@@ -271,7 +275,7 @@ def to_veryl(m, top="Top"):
         for x in internal:
             cl.append("    var %s: %s;" % (D[x][0], type_text(D[x][1], D[x][2], D[x][3])))
         for i in ch["items"]:
-            cl += item_lines(m, m["items"][i])
+            cl += item_lines(m, m["items"][i], (m.get("displays") or {}).get(str(i)))
         cl.append("}")
         texts.append("\n".join(cl))
         ports = (["clk", "rst"] if has_ff else []) + [D[x][0] for x in ins + outs]
@@ -292,7 +296,7 @@ def to_veryl(m, top="Top"):
                 done_inst.add(ci)
                 lines.append(insts[ci])
             continue
-        lines += item_lines(m, it)
+        lines += item_lines(m, it, (m.get("displays") or {}).get(str(i)))
     lines.append("}")
     texts.append("\n".join(lines))
     return "\n".join(texts) + "\n"
@@ -475,15 +479,141 @@ def histogram(m):
     return h
 
 
+# ------------------------------------------------------------------------------------ keeping programs inside the agreed fragment
+
+ONEBIT_OPS = set(REL + EQ + LOGIC)
+
+
+def tsigned(m, e):
+    """signedness of the analyzer's Comptime TYPE of e (Op::eval_type_*: a binary / ternary node clones the
+    type of its FIRST operand).  A narrowing cast sign-extends its result when this is true, whatever the
+    gathered context says — must stay identical to VV.Rtl.Eval.tsigned."""
+    k = e[0]
+    if k == "lit":
+        return e[2]
+    if k in ("var", "sel"):
+        return m["decls"][e[1]][2]
+    if k == "un":
+        return tsigned(m, e[2]) if e[1] in ("plus", "minus") else False
+    if k == "bin":
+        return tsigned(m, e[2])
+    if k == "tern":
+        return tsigned(m, e[1])
+    if k == "cat":
+        return False
+    if k == "cast":
+        return tsigned(m, e[2])
+    if k == "sign":
+        return e[1]
+    raise ValueError(k)
+
+
+def strip_to_var(e):
+    while e[0] == "sign" or (e[0] == "un" and e[1] == "plus"):
+        e = e[2]
+    return e[1] if e[0] == "var" else None
+
+
+def _wrap(e):
+    return ("cat", [(e, 1)])
+
+
+def fix_expr(m, e, cw):
+    """e is evaluated in a context of width cw.  In a context wider than 64 bits a 1-bit-result operator
+    (comparison, equality, && ||, reduction, !) is wrapped in a concatenation `{e}`: the JIT mishandles the
+    bare forms there (findings jit-onebit-in-wide-context, design/C02.md); `{e}` is handled by all engines."""
+    k = e[0]
+    if k in ("lit", "var", "sel"):
+        return e
+    if k == "un":
+        if e[1] in ("plus", "minus", "bitnot"):
+            return ("un", e[1], fix_expr(m, e[2], cw))
+        n = ("un", e[1], fix_expr(m, e[2], gather(m, e[2])[0]))
+        return _wrap(n) if cw > 64 else n
+    if k == "bin":
+        o = e[1]
+        if o == "xnor" and cw > 64:
+            # the C backend computes ~^ of <=64-bit operands in a wider context in 64 bits only
+            # (finding cc-xnor-wide-context): spell it ~(a ^ b) there
+            return ("un", "bitnot", ("bin", "xor", fix_expr(m, e[2], cw), fix_expr(m, e[3], cw)))
+        if o in ARITH or o in BITW:
+            return ("bin", o, fix_expr(m, e[2], cw), fix_expr(m, e[3], cw))
+        if o in SHIFT or o == "pow":
+            return ("bin", o, fix_expr(m, e[2], cw), fix_expr(m, e[3], gather(m, e[3])[0]))
+        if o in REL or o in EQ:
+            mw = max(gather(m, e[2])[0], gather(m, e[3])[0])
+            n = ("bin", o, fix_expr(m, e[2], mw), fix_expr(m, e[3], mw))
+        else:
+            n = ("bin", o, fix_expr(m, e[2], gather(m, e[2])[0]), fix_expr(m, e[3], gather(m, e[3])[0]))
+        return _wrap(n) if cw > 64 else n
+    if k == "tern":
+        return ("tern", fix_expr(m, e[1], gather(m, e[1])[0]), fix_expr(m, e[2], cw), fix_expr(m, e[3], cw))
+    if k == "cat":
+        return ("cat", [(fix_expr(m, a, gather(m, a)[0]), n) for a, n in e[1]])
+    if k == "cast":
+        return ("cast", e[1], fix_expr(m, e[2], max(gather(m, e[2])[0], e[1])))
+    if k == "sign":
+        return ("sign", e[1], fix_expr(m, e[2], gather(m, e[2])[0]))
+    raise ValueError(k)
+
+
+def fix_rhs(m, e, wl):
+    for _ in range(3):                      # wrapping may change nothing in widths; iterate to a fixpoint anyway
+        e2 = fix_expr(m, e, max(gather(m, e)[0], wl))
+        if e2 == e:
+            break
+        e = e2
+    return e
+
+
+def fix_stmt(m, s):
+    D = m["decls"]
+    k = s[0]
+    if k == "assign":
+        if strip_to_var(s[2]) == s[1]:
+            # `q = q;` after another write to q in one always_ff: engines with ff-opt drop it, --disable-ff-opt
+            # keeps the old value (finding ff-self-assignment): never generated
+            return ("assign", s[1], ("un", "bitnot", s[2]))
+        return ("assign", s[1], fix_rhs(m, s[2], D[s[1]][1]))
+    if k == "asel":
+        wl = s[2] - s[3] + 1
+        e = fix_rhs(m, s[4], wl)
+        # the interpreter loses a part-select write whose right-hand side is evaluated wider than 64 bits
+        # into a <=64-bit variable (finding interp-partselect-wide-rhs): keep such writes whole
+        if D[s[1]][1] <= 64 and max(gather(m, e)[0], wl) > 64:
+            return ("assign", s[1], fix_rhs(m, s[4], D[s[1]][1]))
+        return ("asel", s[1], s[2], s[3], e)
+    if k == "if":
+        return ("if", fix_rhs(m, s[1], 1), [fix_stmt(m, x) for x in s[2]], [fix_stmt(m, x) for x in s[3]])
+    if k == "case":
+        return ("case", fix_rhs(m, s[1], 1), [([fix_rhs(m, p, 1) for p in pats], [fix_stmt(m, x) for x in b]) for pats, b in s[2]],
+                [fix_stmt(m, x) for x in s[3]])
+    raise ValueError(k)
+
+
+def fix_module(m):
+    items = []
+    for it in m["items"]:
+        if it[0] == "assign":
+            items.append(("assign", it[1], fix_rhs(m, it[2], m["decls"][it[1]][1])))
+        elif it[0] == "comb":
+            items.append(("comb", [fix_stmt(m, s) for s in it[1]]))
+        else:
+            items.append(("ff", None if it[1] is None else [fix_stmt(m, s) for s in it[1]], [fix_stmt(m, s) for s in it[2]]))
+    out = dict(m)
+    out["items"] = items
+    return out
+
+
 # ------------------------------------------------------------------------------------ random programs
 
 class Gen:
     """Random µRTL module builder.  `profile` switches constructs on/off so the core can grow
     construct by construct (and so a finding can be bisected to a construct)."""
 
-    DEFAULT = dict(max_depth=4, p_signed=0.3, p_bit=0.12, div=True, pow=False, cast=True, sign=True,
+    DEFAULT = dict(display=True, max_depth=4, p_signed=0.3, p_bit=0.12, div=True, pow=False, cast=True, sign=True,
                    cat=True, sel=True, tern=True, xz_lit=False, asel=True, case=True, max_width=200,
-                   ff_noreset=True, wide=True)
+                   ff_noreset=False, wide=True)
 
     def __init__(self, rng, **profile):
         self.r = rng
@@ -575,7 +705,7 @@ class Gen:
             a = self.leaf(avail) if r.random() < 0.7 else self.expr(avail, max(0, depth - 1))
             wa = gather(self.m(), a)[0]
             rep = r.choice([1, 1, 2, 3])
-            if tot + wa * rep > 200:
+            if tot + wa * rep > (200 if self.p["wide"] else 64):
                 continue
             tot += wa * rep
             items.append((a, rep))
@@ -584,21 +714,15 @@ class Gen:
         return ("cat", items)
 
     def cast(self, avail, depth):
-        """`e as w` on the fragment where all engines agree: unsigned operand that is either a
-        variable / select / literal / concatenation (any w) or an operator expression being really
-        narrowed (w < its width)"""
+        """`e as w` on the fragment where all engines agree and the simulator really casts: a narrowing
+        (w < width) of an unsigned operand"""
         r = self.r
-        if r.random() < 0.5:
-            a = self.expr(avail, depth)
+        for _ in range(4):
+            a = self.expr(avail, depth) if r.random() < 0.6 else self.leaf([x for x in avail if not self.decls[x][2]])
             ga = gather(self.m(), a)
-            if not ga[1] and ga[0] > 1 and a[0] in ("bin", "un", "tern") :
+            if not ga[1] and ga[0] > 1 and not tsigned(self.m(), a):
                 return ("cast", r.randint(1, ga[0] - 1), a)
-        a = self.selfwidth_leaf(avail, depth)
-        if r.random() < 0.3:
-            a = self.leaf([x for x in avail if not self.decls[x][2]])
-            if gather(self.m(), a)[1]:
-                a = ("lit", 5, False, r.randint(0, 31), 0)
-        return ("cast", self.width(), a)
+        return ("cast", 3, ("lit", 5, False, r.randint(0, 31), 0))
 
     def cond(self, avail, depth):
         """1-bit expression"""
@@ -647,11 +771,11 @@ class Gen:
         if k < 0.5:
             a = self.expr(avail, d)
             op = r.choice(["shl", "shr"])
-            svars = [x for x in avail if self.decls[x][2]]
+            svars = [x for x in avail if self.decls[x][2] and self.decls[x][1] <= 64]
             if svars and r.random() < 0.4:
                 # <<< / >>> only where the analyzer sees a signed left operand (a signed variable or
                 # $signed(var)); it flags the others (unsigned_arith_shift)
-                a = ("var", r.choice(svars)) if r.random() < 0.7 else ("sign", True, ("var", r.choice(avail)))
+                a = ("var", r.choice(svars)) if r.random() < 0.7 else ("sign", True, ("var", r.choice([x for x in avail if self.decls[x][1] <= 64] or svars)))
                 op = r.choice(["ashr", "ashr", "ashl"])
             if r.random() < 0.5:
                 wa = gather(self.m(), a)[0]
@@ -662,6 +786,14 @@ class Gen:
                     b = ("lit", bw, False, amt, 0)
             else:
                 b = self.expr(avail, d)
+                gb = gather(self.m(), b)
+                if gb[0] > 64:
+                    # the JIT reads only the low 64 bits of a wider shift amount (finding
+                    # jit-wide-shift-amount): keep amounts <= 64 bits wide
+                    if not gb[1] and b[0] in ("bin", "un", "tern"):
+                        b = ("cast", r.randint(1, 16), b)
+                    else:
+                        b = ("lit", 8, False, r.randint(0, 255), 0)
             return ("bin", op, a, b)
         if k < 0.58:
             return ("un", r.choice(["minus", "bitnot", "plus"]), self.expr(avail, d))
@@ -679,7 +811,7 @@ class Gen:
                 rep = 1
                 if r.random() < 0.3:
                     rep = r.randint(2, 4) if wa > 8 else r.choice([2, 3, 4, 8, 16, 32, 33, 64, 65])
-                if wa * rep == 0 or tot + wa * rep > 250:
+                if wa * rep == 0 or tot + wa * rep > (250 if self.p["wide"] else 64):
                     continue
                 tot += wa * rep
                 items.append((a, rep))
@@ -689,7 +821,7 @@ class Gen:
         if k < 0.92 and self.p["cast"]:
             return self.cast(avail, d)
         if k < 0.97 and self.p["sign"]:
-            return ("sign", r.random() < 0.7, self.selfwidth_leaf(avail, d, any_sign=True))
+            return ("sign", r.random() < 0.7, ("var", r.choice(avail))) if avail else self.lit()
         if self.p["pow"]:
             return ("bin", "pow", self.expr(avail, d), ("lit", 3, False, r.randint(0, 5), 0))
         return self.leaf(avail)
@@ -807,7 +939,17 @@ class Gen:
         shuffled = [items[i][1] for i in idx]
         pos = {old: new for new, old in enumerate(idx)}
         order = [pos[i] for i in range(len(comb_items))]
-        return {"decls": self.decls, "items": shuffled, "order": order}
+        m = fix_module({"decls": self.decls, "items": shuffled, "order": order})
+        if self.p["display"]:
+            disp = {}
+            for i, it in enumerate(shuffled):
+                if it[0] == "ff" and r.random() < 0.35:
+                    vs = [x for x in range(len(self.decls)) if r.random() < 0.3]
+                    if vs:
+                        disp[str(i)] = vs[:4]
+            if disp:
+                m["displays"] = disp
+        return m
 
 
 def gen_stimulus(rng, m, cycles, p_reset=0.06, xz=False):
@@ -875,11 +1017,19 @@ def _fj(x):
 
 
 def module_to_json(m):
-    return {"decls": _tj(m["decls"]), "items": _tj(m["items"]), "order": list(m["order"])}
+    j = {"decls": _tj(m["decls"]), "items": _tj(m["items"]), "order": list(m["order"])}
+    for k in ("displays", "children"):
+        if m.get(k):
+            j[k] = m[k]
+    return j
 
 
 def module_from_json(j):
-    return {"decls": _fj(j["decls"]), "items": _fj(j["items"]), "order": list(j["order"])}
+    m = {"decls": _fj(j["decls"]), "items": _fj(j["items"]), "order": list(j["order"])}
+    for k in ("displays", "children"):
+        if j.get(k):
+            m[k] = j[k]
+    return m
 
 
 def stim_to_json(stim):
@@ -900,7 +1050,7 @@ def _finish(g, comb_items, ff_items, shuffle=True):
         g.r.shuffle(idx)
     shuffled = [items[i] for i in idx]
     pos = {old: new for new, old in enumerate(idx)}
-    return {"decls": g.decls, "items": shuffled, "order": [pos[i] for i in range(len(comb_items))]}
+    return fix_module({"decls": g.decls, "items": shuffled, "order": [pos[i] for i in range(len(comb_items))]})
 
 
 def shape_chain(rng, n=None, narrow=True):
